@@ -57,24 +57,24 @@ CHECKS = {
             "histories on a DictStorage) the engine is dropped, the users finish their scripts while it is down, and a new engine "
             "is started over the same storage in three modes (intact, cursor removed, cursor rejected); after quiescence: "
             "convergence, no loss, no new artefact, no spurious transfer (intact) / every created or modified object present on "
-            "both sides (cursor lost); case-only renames on case-insensitive flavours and first-ever starts (tree present before any engine ran) and stops that land inside an intake step (before the k-th event of the batch) included; an engine that is quiet by state but still reports pending work counts as a failure. Judged only when the undisturbed run passes (differential gating).",
+            "both sides (cursor lost); case-only renames on case-insensitive flavours and first-ever starts (tree present before any engine ran), stops that land inside an intake step (before the k-th event of the batch) and a restart whose first provider call finds the connection dropped included; an engine that is quiet by state but still reports pending work counts as a failure. Judged only when the undisturbed run passes (differential gating).",
             NOTE_E1, "5/C06"),
     "C07": ("seqx", "exhaustive crash-point enumeration (every storage write, every engine provider write) on explored executions",
             "Within every base execution each storage create/update/delete is taken as a crash instant (die before it) and each "
             "effective engine provider write as a crash instant (die right after it); writes after death are refused; a new engine "
             "restarts over the storage and provider contents of that instant under three post-restart schedules (fair, sync loop "
-            "first, remote events first), four provider flavours, including first-ever starts (initial walk, first cursor and first "
+            "first, remote events first), four provider flavours, including first-ever starts and objects moved across the root boundary under a schedule in which syncing lags behind intake (initial walk, first cursor and first "
             "rows inside the run): convergence, no loss, no artefact for one-sided histories, engine not left reporting pending work.", NOTE_E1 + " A crash is 'process disappears between two calls'; torn rows are SQLite's contract.", "5/C07"),
     "C10": ("seqx", "exhaustive fault-placement enumeration (every engine API call x 4 error kinds, before/after effect)",
             "Every provider API call the engine makes in a base execution is failed once with a temporary, disconnected, token or "
             "out-of-space error before its effect, every mutating call also right after its effect; plus permanent per-path "
-            "failures lifted after 0..8 rounds; pairs of faults on the intake path (events() and one of the next six calls) and faults "
-            "during conflict resolution with an application resolver. Afterwards the run must go quiet, converge without loss and have raised the "
+            "failures lifted after 0..8 rounds; pairs of faults on the intake path (events() and one of the next six calls) faults "
+            "during conflict resolution with an application resolver, and faults during a first-ever start. Afterwards the run must go quiet, converge without loss and have raised the "
             "matching notification.", NOTE_E1, "5/C10"),
     "C08": ("seqx+enumx", TECH_E1 + " with a persistence monitor; " + TECH_E4 + " for the codec",
             "After every engine transition of every interleaving of the C01 history list (storage attached) the stored rows "
             "must equal the live entries byte for byte, with no stale row and an empty dirty set, and a SyncState reloaded "
-            "from a copy of the storage must have the same entries, pending set and id/path lookups; the per-tag data rows (cursor, walk marker) behave like one value per tag for every sequence of get/update/delete/forget by two states over one store up to depth 5 (6). The codec is enumerated "
+            "from a copy of the storage must have the same entries, pending set and id/path lookups; the per-tag data rows (cursor, walk marker) behave like one value per tag for every sequence of get/update/delete/forget by two states over one store up to depth 5 (6); intake batches cut short by a provider error after 1-2 events are included. The codec is enumerated "
             "over every combination of hash shape, path, id, existence, ignore reason and stamp values, plus legacy rows.",
             NOTE_E1, "5/C08"),
     "C09": ("apix", TECH_E2,
@@ -103,7 +103,7 @@ CHECKS = {
             "unknown-id events injected, a full walk queued at three positions, per-event batching - must end in the same quiet "
             "trees as the unmangled run, without new artefacts or spurious transfers. Two-phase 'stale replay' histories: every "
             "non-empty subset of the events of an earlier, fully processed phase is delivered again (with and without the content "
-            "hash it described) before or after the next batch.", NOTE_E1, "5/C14"),
+            "hash it described) before or after the next batch, and every subset of the second phase's events arrives without its path.", NOTE_E1, "5/C14"),
     "C13": ("enumx", TECH_E4,
             "Every string up to length 5 (6 thorough) over an 8-symbol alphabet for the unary laws, all folder/relative-part "
             "pairs from strings up to length 3 (4) for subpath, prefix-sibling, replace and match laws (folder arguments also in the "
